@@ -24,6 +24,8 @@ type c15pre struct {
 	vestRelease map[string]math.Int // signer name -> uelys a ClaimVesting in the next block releases (reference formula)
 	vestNowFac  math.Int
 	claimedEden map[string]math.Int // claimed ueden of every signer that sends MsgVestNow in this block
+	v           int64               // committed version and environment before the block (sibling blocks)
+	env         Env
 	height      int64
 	provEpoch   int64    // current number of the provider-vesting epoch
 	provRelease math.Int // what the provider reward account's schedule releases at the next height
@@ -111,7 +113,7 @@ func OracleC15() *Oracle {
 		},
 		Pre: func(w *World, op *Op, plan *BlockPlan) interface{} {
 			ctx := w.RCtx()
-			p := &c15pre{supply: supplyMap(w, ctx), zeroElys: w.App.BankKeeper.GetBalance(ctx, zero, "uelys").Amount, vestRelease: map[string]math.Int{}, height: w.Height() + 1}
+			p := &c15pre{v: w.Height(), env: w.Env, supply: supplyMap(w, ctx), zeroElys: w.App.BankKeeper.GetBalance(ctx, zero, "uelys").Amount, vestRelease: map[string]math.Int{}, height: w.Height() + 1}
 			for _, t := range plan.Txs {
 				for _, m := range t.Msgs {
 					if _, ok := m.(*ctypes.MsgClaimVesting); ok {
@@ -167,22 +169,46 @@ func OracleC15() *Oracle {
 				}
 				return addr
 			}
-			// an immediate conversion (VestNow) mints native tokens AGAINST Eden: the Eden must leave the book
+			// an immediate conversion (VestNow) mints native tokens AGAINST Eden: the Eden must leave the book.
+			// Block processing may credit Eden to the same account in the same block (a forced close claims its
+			// rewards), so the transaction's own effect is measured against the SIBLING block without it: same
+			// header, same other transactions.
 			for i, r := range t.Res.Res.TxResults {
 				pt, ok := txOf[i]
 				if !ok || r.Code != 0 || len(pt.Msgs) != 1 {
 					continue
 				}
-				if vn, ok := pt.Msgs[0].(*ctypes.MsgVestNow); ok && vn.Denom == "ueden" {
-					cm := w.App.CommitmentKeeper.GetCommitments(ctx, w.A(pt.Signer).Addr)
-					Clauses.Inc("vest_now_consumes_eden")
-					if had, ok := pre.claimedEden[pt.Signer]; ok {
-						// other txs of the same signer in the block could move the balance too: the plans of this alphabet carry one tx per signer
-						if took := had.Sub(cm.GetClaimedForDenom("ueden")); !took.Equal(vn.Amount) {
-							bad("vest_now_minted_without_consuming_eden", "", fmt.Sprintf("MsgVestNow of %s ueden by %s succeeded; claimed Eden went %s -> %s (took %s)", vn.Amount, pt.Signer, had, cm.GetClaimedForDenom("ueden"), took))
-						}
+				vn, ok := pt.Msgs[0].(*ctypes.MsgVestNow)
+				if !ok || vn.Denom != "ueden" {
+					continue
+				}
+				cmAfter := w.App.CommitmentKeeper.GetCommitments(ctx, w.A(pt.Signer).Addr)
+				after := cmAfter.GetClaimedForDenom("ueden")
+				wantHash := string(w.App.LastCommitID().Hash)
+				w.Rollback(pre.v, pre.env)
+				sib := *t.Plan
+				sib.Txs = nil
+				for j := range t.Plan.Txs {
+					if &t.Plan.Txs[j] != pt {
+						sib.Txs = append(sib.Txs, t.Plan.Txs[j])
 					}
 				}
+				sib.TxIndex, sib.GovErrs = nil, nil
+				if br := w.Exec(&sib); br.OK() {
+					cmSib := w.App.CommitmentKeeper.GetCommitments(w.RCtx(), w.A(pt.Signer).Addr)
+					without := cmSib.GetClaimedForDenom("ueden")
+					Clauses.Inc("vest_now_consumes_eden")
+					if took := without.Sub(after); !took.Equal(vn.Amount) {
+						bad("vest_now_minted_without_consuming_eden", "", fmt.Sprintf("MsgVestNow of %s ueden by %s succeeded; the block leaves the account with %s claimed Eden, the same block WITHOUT the message with %s (difference %s)", vn.Amount, pt.Signer, after, without, took))
+					}
+				}
+				w.Rollback(pre.v, pre.env)
+				re := *t.Plan
+				re.TxIndex, re.GovErrs = nil, nil
+				if rb := w.Exec(&re); !rb.OK() || string(w.App.LastCommitID().Hash) != wantHash {
+					panic(fmt.Sprintf("C15 sibling check: re-execution of %s diverged", t.Op.Name))
+				}
+				ctx = w.RCtx()
 			}
 			for _, sc := range scopes {
 				for _, m := range sc.msgs {
